@@ -326,7 +326,10 @@ package server
 //@   at call NewLockManagerData assert C15.op.append-first: implies(arg1 == 3 && !hasValue(currentLockData), arg0 == lockCommandData.Data && arg0[4] == 0)
 //@   at call NewLockManagerData assert C15.op.append: implies(arg1 == 3 && hasValue(currentLockData), len(arg0) == len(currentLockData.data) + len(lockCommandData.Data) - voffC(lockCommandData) && arg0[4] == 0 && arg0[5] == currentLockData.data[5] && forall(k, 6, len(currentLockData.data), arg0[k] == currentLockData.data[k]) && forall(k, 0, len(lockCommandData.Data) - voffC(lockCommandData), arg0[len(currentLockData.data) + k] == lockCommandData.Data[voffC(lockCommandData) + k]))
 //@   at call NewLockManagerData assert C15.op.shift: implies(arg1 == 4, len(arg0) == len(currentLockData.data) - min(lengthValue, len(currentLockData.data) - voffM(currentLockData)) && len(arg0) >= voffM(currentLockData) && arg0[4] == 0 && arg0[5] == currentLockData.data[5] && forall(k, 6, voffM(currentLockData), arg0[k] == currentLockData.data[k]) && forall(k, voffM(currentLockData), len(arg0), arg0[k] == currentLockData.data[k + len(currentLockData.data) - len(arg0)]))
-//@   at call NewLockManagerData assert C15.op.push-first: implies(arg1 == 7 && !(hasValue(currentLockData) && len(currentLockData.data) >= 6 && currentLockData.data[5]&0x02 != 0), len(arg0) == len(lockCommandData.Data) + 4 && arg0[4] == 0 && arg0[5] == (lockCommandData.Data[5]&0xf8)|0x02 && forall(k, 6, voffC(lockCommandData), arg0[k] == lockCommandData.Data[k]) && putLE32(arg0, voffC(lockCommandData), len(lockCommandData.Data) - voffC(lockCommandData)) && forall(k, 0, len(lockCommandData.Data) - voffC(lockCommandData), arg0[voffC(lockCommandData) + 4 + k] == lockCommandData.Data[voffC(lockCommandData) + k]))
+//@   at call NewLockManagerData assert C15.op.push-first: implies(arg1 == 7 && !(hasValue(currentLockData) && len(currentLockData.data) >= 6 && currentLockData.data[5]&0x02 != 0), len(arg0) == len(lockCommandData.Data) + 4 && arg0[4] == 0 && arg0[5] == (lockCommandData.Data[5]&0xf8)|0x02)
+//@   at call NewLockManagerData assert C15.op.push-first-props: implies(arg1 == 7 && !(hasValue(currentLockData) && len(currentLockData.data) >= 6 && currentLockData.data[5]&0x02 != 0), forall(k, 6, voffC(lockCommandData), arg0[k] == lockCommandData.Data[k]))
+//@   at call NewLockManagerData assert C15.op.push-first-elemlen: implies(arg1 == 7 && !(hasValue(currentLockData) && len(currentLockData.data) >= 6 && currentLockData.data[5]&0x02 != 0), putLE32(arg0, voffC(lockCommandData), len(lockCommandData.Data) - voffC(lockCommandData)))
+//@   at call NewLockManagerData assert C15.op.push-first-elem: implies(arg1 == 7 && !(hasValue(currentLockData) && len(currentLockData.data) >= 6 && currentLockData.data[5]&0x02 != 0), forall(k, 0, len(lockCommandData.Data) - voffC(lockCommandData), arg0[voffC(lockCommandData) + 4 + k] == lockCommandData.Data[voffC(lockCommandData) + k]))
 //@   at call NewLockManagerData assert C15.op.push-head: implies(arg1 == 7 && hasValue(currentLockData) && len(currentLockData.data) >= 6 && currentLockData.data[5]&0x02 != 0, len(arg0) == len(currentLockData.data) + 4 + len(lockCommandData.Data) - voffC(lockCommandData) && arg0[4] == 0 && arg0[5] == (currentLockData.data[5]&0xf8)|0x02)
 //@   at call NewLockManagerData assert C15.op.push-keep: implies(arg1 == 7 && hasValue(currentLockData) && len(currentLockData.data) >= 6 && currentLockData.data[5]&0x02 != 0, forall(k, 6, len(currentLockData.data), arg0[k] == currentLockData.data[k]))
 //@   at call NewLockManagerData assert C15.op.push-elemlen: implies(arg1 == 7 && hasValue(currentLockData) && len(currentLockData.data) >= 6 && currentLockData.data[5]&0x02 != 0, putLE32(arg0, len(currentLockData.data), len(lockCommandData.Data) - voffC(lockCommandData)))
